@@ -43,7 +43,11 @@ TS = ['A', 'B', 'C', 'D']
 
 def gen_grammar(rng, profile=None):
     """returns dict(rules={nt: [alt,...]}, prio={nt: int}, starts=[...], nts, ts)"""
-    profile = profile or rng.choice(['plain', 'plain', 'nullable', 'cores', 'prio', 'conflict', 'expr'])
+    profile = profile or rng.choice(['plain', 'plain', 'nullable', 'cores', 'prio', 'conflict', 'expr', 'nullchain', 'tie3'])
+    if profile == 'nullchain':
+        return gen_nullchain(rng)
+    if profile == 'tie3':
+        return gen_tie3(rng)
     n_nt = rng.randint(1, 5)
     n_t = rng.randint(1, 4)
     nts, ts = NTS[:n_nt], TS[:n_t]
@@ -96,6 +100,64 @@ def gen_grammar(rng, profile=None):
     if n_nt >= 2 and rng.random() < 0.12:
         starts.append(rng.choice(nts[1:]))
     return dict(rules=rules, prio=prio, starts=starts, nts=nts, ts=ts, profile=profile)
+
+
+def gen_nullchain(rng):
+    """a chain of unit rules (depth 3..6, written top-down) down to a nullable bottom, where FIRST of the upper links is
+    also reached through a side alternative: nullability has to climb the chain after FIRST has settled, and the chain
+    sits at the end of a rule so that the look-ahead after it ($END or a following terminal) depends on NULLABLE"""
+    depth = rng.randint(3, 6)
+    chain = ['n%d' % i for i in range(depth)]
+    ts = TS[:rng.randint(2, 4)]
+    rules = {}
+    t0, t1 = rng.choice(ts), rng.choice(ts)
+    tail = [rng.choice(ts)] if rng.random() < 0.4 else []
+    lead = [t0] + ([rng.choice(ts)] if rng.random() < 0.5 else [])
+    rules['start'] = [lead + [chain[0]] + tail]
+    if rng.random() < 0.4:
+        rules['start'].append([rng.choice(ts), chain[rng.randrange(depth)], rng.choice(ts)])
+    side_at = rng.randrange(0, depth - 1) if rng.random() < 0.8 else None
+    for i, a in enumerate(chain[:-1]):
+        rules[a] = [[chain[i + 1]]]
+        if i == side_at:
+            rules[a].append([t1, rng.choice(ts)])
+    bottom = [[]]
+    if rng.random() < 0.7:
+        bottom.append([t1, rng.choice(ts)])
+    rng.shuffle(bottom)
+    rules[chain[-1]] = bottom
+    nts = ['start'] + chain
+    if rng.random() < 0.3:                       # bottom-up order of definition as well
+        nts = ['start'] + chain[::-1]
+    return dict(rules=rules, prio={}, starts=['start'], nts=nts, ts=ts, profile='nullchain')
+
+
+def gen_tie3(rng):
+    """three or more rules reducible in one state on one look-ahead, with priorities in which the best two may tie while
+    a lower one is present (the resolution is 'best strictly above second best', not 'best above worst')"""
+    k = rng.randint(3, 4)
+    nts = ['start'] + ['r%d' % i for i in range(k)]
+    ts = TS[:rng.randint(2, 3)]
+    body = [rng.choice(ts)]
+    after = rng.choice(ts)
+    rules = {'start': [[a, after] if rng.random() < 0.7 else [a] for a in nts[1:]]}
+    if rng.random() < 0.5:
+        rules['start'] = [[ts[0]] + alt for alt in rules['start']]
+    for a in nts[1:]:
+        rules[a] = [list(body)]
+    shape = rng.choice(['tie-top', 'tie-top', 'strict', 'all-equal', 'tie-bottom'])
+    hi = rng.choice([2, 3])
+    if shape == 'tie-top':
+        pr = [hi, hi] + [rng.choice([hi - 1, 1, -1]) for _ in range(k - 2)]
+    elif shape == 'strict':
+        pr = [hi + 1, hi] + [rng.choice([hi - 1, 1]) for _ in range(k - 2)]
+    elif shape == 'all-equal':
+        pr = [hi] * k
+    else:
+        pr = [hi] + [1] * (k - 1)
+    rng.shuffle(pr)
+    prio = {a: p for a, p in zip(nts[1:], pr) if not (p == 1 and rng.random() < 0.3)}
+    return dict(rules=rules, prio=prio, starts=['start'], nts=nts, ts=ts, profile='tie3')
 
 
 def render(g):
@@ -812,6 +874,14 @@ FIXED = [
     ('start: a b c D\na: A\nb: | B\nc: | C\n' + T_('A', 'B', 'C', 'D'), ['start'], ['A', 'B', 'C', 'D']),
     # non-trivial reads-cycle (digraph set aliasing shows here; collision is legitimate)
     ('start: b a | C b | start start | \na:  | b D b | b D\nb:  | start\n' + T_('C', 'D'), ['start'], ['C', 'D']),
+    # nullability climbing a top-down chain of unit rules after FIRST has settled ($END must be a look-ahead after "x t")
+    ('start: A B n0\nn0: n1\nn1: n2 | C D\nn2: n3\nn3: n4\nn4: | C A\n' + T_('A', 'B', 'C', 'D'), ['start'], ['A', 'B', 'C', 'D']),
+    ('start: A n0\nn0: n1\nn1: n2\nn2: n3\nn3:\n' + T_('A', 'B'), ['start'], ['A', 'B']),
+    # three rules reducible on one look-ahead, best two tied, a lower one present: still a reduce/reduce GrammarError
+    ('start: r0 B | r1 B | r2 B\nr0.2: A\nr1.2: A\nr2.1: A\n' + T_('A', 'B'), ['start'], ['A', 'B']),
+    ('start: r0 | r1 | r2 | r3\nr0.3: A\nr1: A\nr2.3: A\nr3.-1: A\n' + T_('A', 'B'), ['start'], ['A', 'B']),
+    # ... and with a strict winner it builds
+    ('start: r0 B | r1 B | r2 B\nr0.3: A\nr1.2: A\nr2.1: A\n' + T_('A', 'B'), ['start'], ['A', 'B']),
     # two start symbols sharing states
     ('start: a A | B\na: B a | C\n' + T_('A', 'B', 'C'), ['start', 'a'], ['A', 'B', 'C']),
 ]
